@@ -194,6 +194,34 @@ SliceBounds(n, st, hasLen, ln) ==
 SliceSeq(xs, st, hasLen, ln) ==
     LET b == SliceBounds(Len(xs), st, hasLen, ln) IN SubSeq(xs, b.from + 1, b.to)
 
+\* split a text at a non-empty separator
+RECURSIVE SplitText(_, _, _)
+SplitText(s, sep, acc) ==
+    IF s = <<>> THEN <<acc>>
+    ELSE IF IsPrefixOf(sep, s) THEN <<acc>> \o SplitText(Drop(s, Len(sep)), sep, <<>>)
+    ELSE SplitText(Tail(s), sep, Append(acc, Head(s)))
+
+\* the harness' vdump filter: a serialisation of the Go value the filter receives
+\*   N | T | F | i<int> | s<#chars>:<chars> | [e,..] | {k=v,..} sorted by the dump of k
+RECURSIVE Dump(_), DumpSeq(_), DumpPairs(_)
+DumpSeq(xs) == IF xs = <<>> THEN <<>> ELSE IF Len(xs) = 1 THEN Dump(xs[1]) ELSE Dump(xs[1]) \o <<44>> \o DumpSeq(Tail(xs))
+RECURSIVE InsertPair(_, _)
+InsertPair(p, ps) == IF ps = <<>> THEN <<p>>
+                     ELSE IF TextLess(p.k, Head(ps).k) THEN <<p>> \o ps ELSE <<Head(ps)>> \o InsertPair(p, Tail(ps))
+RECURSIVE SortPairs(_)
+SortPairs(ps) == IF ps = <<>> THEN <<>> ELSE InsertPair(Head(ps), SortPairs(Tail(ps)))
+DumpPairs(ps) == IF ps = <<>> THEN <<>>
+                 ELSE ps[1].k \o <<61>> \o ps[1].v \o (IF Len(ps) > 1 THEN <<44>> \o DumpPairs(Tail(ps)) ELSE <<>>)
+Dump(v) ==
+    CASE v.t = "null" -> <<78>>
+      [] v.t = "bool" -> IF v.b THEN <<84>> ELSE <<70>>
+      [] v.t = "int"  -> <<105>> \o IntText(v.i)
+      [] v.t = "str"  -> <<115>> \o IntText(Len(v.s)) \o <<58>> \o v.s
+      [] v.t = "safe" -> <<115>> \o IntText(Len(v.s)) \o <<58>> \o v.s
+      [] v.t = "list" -> <<91>> \o DumpSeq(v.xs) \o <<93>>
+      [] v.t = "map"  -> <<123>> \o DumpPairs(SortPairs([i \in 1..Len(v.ks) |-> [k |-> Dump(v.ks[i]), v |-> Dump(v.vs[i])]])) \o <<125>>
+      [] OTHER -> <<63>>
+
 IsEmptyVal(v) == v.t = "null" \/ (v.t = "str" /\ v.s = <<>>) \/ (v.t = "bool" /\ ~v.b)
                  \/ (v.t = "list" /\ v.xs = <<>>) \/ (v.t = "map" /\ v.ks = <<>>)
 
@@ -204,7 +232,7 @@ MergeMaps(m, ks, vs) == IF ks = <<>> THEN m ELSE MergeMaps(MapPut(m, Head(ks), H
 KnownTests == {"defined", "empty", "null", "none", "even", "odd", "iterable", "divisibleby", "sameas", "st", "stx"}
 NamedSpyFilters == [sfz |-> "f1", sfa |-> "a1"]
 BuiltinFilters == {"upper", "lower", "trim", "capitalize", "length", "first", "last", "reverse",
-                   "sort", "join", "default", "keys", "merge", "slice", "abs", "escape", "e"}
+                   "sort", "join", "default", "keys", "merge", "slice", "abs", "escape", "e", "split", "vdump"}
 
 ApplyBuiltin(f, v, args, calls) ==
     CASE f = "upper" /\ v.t = "str" /\ args = <<>> -> ROk(VS(Upper(v.s)), calls)
@@ -241,6 +269,9 @@ ApplyBuiltin(f, v, args, calls) ==
             IN IF v.t = "list" THEN ROk(VL(SliceSeq(v.xs, args[1].i, hasLen, ln)), calls)
                ELSE ROk(VS(SliceSeq(v.s, args[1].i, hasLen, ln)), calls)
       [] f = "abs" /\ args = <<>> /\ v.t = "int" -> ROk(VI(Abs(v.i)), calls)
+      [] f = "split" /\ Len(args) = 1 /\ v.t = "str" /\ args[1].t = "str" /\ args[1].s # <<>> ->
+            ROk(VL([i \in 1..Len(SplitText(v.s, args[1].s, <<>>)) |-> VS(SplitText(v.s, args[1].s, <<>>)[i])]), calls)
+      [] f = "vdump" /\ args = <<>> -> ROk(VS(Dump(v)), calls)
       [] f \in {"escape", "e"} /\ args = <<>> /\ Printable(v) -> ROk(VS(Escape(TextOf(v))), calls)
       [] OTHER -> RErr("frag", calls)
 
